@@ -564,8 +564,9 @@ class SetterScenario(BaseScenario):
                 raise Violation("C03", "live_not_assigned", f"{cls_name}.{attr}: assigned {compare._short(want)}, getter returns {compare._short(got)}",
                                 {"cls": cls_name, "attr": attr})
         # (b) the stored value (independent reader, open handle) equals the live value
-        live = self.live_view(ws, ref, owner)
+        # (the file is read FIRST: some getters recompute and write what a setter left out, which would heal the file before it is looked at)
         raw = self.raw_view(ws, ref, owner)
+        live = self.live_view(ws, ref, owner)
         sim.oracle("stored_equals_live")
         diffs = self.diff_views(live, raw)
         if diffs:
